@@ -28,24 +28,30 @@ package ast
 //@   loop 1 invariant forall k :: { tokens[k] } index <= k && k < current_index ==> ign(tokens[k].TokenType)
 //@   loop 1 decreases len(tokens) - current_index
 
-//@ func parse_command [C08]
+//@ func parse_command [C08 C15]
 //@   noframe
+//@   sigreads [C15]
+//@   requires sig: !ign(tokens[token_index].TokenType) [C15]
 //@   requires tokWf(tokens) && 0 <= token_index && token_index < len(tokens)
 //@   ensures nohole: result.2 == nil && tokens[token_index].TokenType != EOF ==> wfbox(result.0)
 //@   ensures index: result.2 == nil && tokens[token_index].TokenType != EOF ==> okIdx(tokens, token_index, result.1)
 //@   ensures eof: tokens[token_index].TokenType == EOF ==> result.1 == token_index && result.0 == nil
 //@   ensures either: result.2 != nil || result.1 < len(tokens)
 
-//@ func parse_find [C08]
+//@ func parse_find [C08 C15]
 //@   noframe
+//@   sigreads [C15]
+//@   requires sig: !ign(tokens[token_index].TokenType) [C15]
 //@   requires tokWf(tokens) && 0 <= token_index && token_index < len(tokens) && tokens[token_index].TokenType != EOF
 //@   ensures nohole: result.2 == nil ==> result.0 != nil
 //@   ensures index: result.2 == nil ==> okIdx(tokens, token_index, result.1)
 //@   ensures either: result.2 != nil || result.1 < len(tokens)
 //@   loop 1 invariant 0 <= current_index && current_index < len(tokens) && current_token == tokens[current_index] && token_index < current_index
 
-//@ func parse_replace [C08]
+//@ func parse_replace [C08 C15]
 //@   noframe
+//@   sigreads [C15]
+//@   requires sig: !ign(tokens[token_index].TokenType) [C15]
 //@   requires tokWf(tokens) && 0 <= token_index && token_index < len(tokens) && tokens[token_index].TokenType != EOF
 //@   ensures nohole: result.2 == nil ==> result.0 != nil
 //@   ensures index: result.2 == nil ==> okIdx(tokens, token_index, result.1)
@@ -53,215 +59,274 @@ package ast
 //@   loop 1 invariant 0 <= current_index && current_index < len(tokens) && current_token == tokens[current_index] && token_index < current_index
 //@   loop 2 invariant 0 <= current_index && current_index < len(tokens) && token_index < current_index && current_token != nil
 
-//@ func parse_set [C08]
+//@ func parse_set [C08 C15]
 //@   noframe
+//@   sigreads [C15]
+//@   requires sig: !ign(tokens[token_index].TokenType) [C15]
 //@   requires tokWf(tokens) && 0 <= token_index && token_index < len(tokens) && tokens[token_index].TokenType != EOF
 //@   ensures nohole: result.2 == nil ==> result.0 != nil
 //@   ensures index: result.2 == nil ==> okIdx(tokens, token_index, result.1)
 //@   ensures either: result.2 != nil || result.1 < len(tokens)
 
-//@ func parse_set_transform [C08]
+//@ func parse_set_transform [C08 C15]
 //@   noframe
+//@   sigreads [C15]
+//@   requires sig: !ign(tokens[token_index].TokenType) [C15]
 //@   requires tokWf(tokens) && 0 <= token_index && token_index < len(tokens) && tokens[token_index].TokenType != EOF
 //@   ensures nohole: result.2 == nil ==> wfbox(result.0)
 //@   ensures index: result.2 == nil ==> okIdx(tokens, token_index, result.1)
 //@   ensures either: result.2 != nil || result.1 < len(tokens)
 
-//@ func parse_set_pattern [C08]
+//@ func parse_set_pattern [C08 C15]
 //@   noframe
+//@   sigreads [C15]
+//@   requires sig: !ign(tokens[token_index].TokenType) [C15]
 //@   requires tokWf(tokens) && 0 <= token_index && token_index < len(tokens) && tokens[token_index].TokenType != EOF
 //@   ensures nohole: result.2 == nil ==> wfbox(result.0)
 //@   ensures index: result.2 == nil ==> okIdx(tokens, token_index, result.1)
 //@   ensures either: result.2 != nil || result.1 < len(tokens)
 //@   loop 1 invariant 0 <= current_index && current_index < len(tokens) && token_index < current_index
 
-//@ func parse_set_matches [C08]
+//@ func parse_set_matches [C08 C15]
 //@   noframe
+//@   sigreads [C15]
+//@   requires sig: !ign(tokens[token_index].TokenType) [C15]
 //@   requires tokWf(tokens) && 0 <= token_index && token_index < len(tokens) && tokens[token_index].TokenType != EOF
 //@   ensures nohole: result.2 == nil ==> wfbox(result.0)
 //@   ensures index: result.2 == nil ==> okIdx(tokens, token_index, result.1)
 //@   ensures either: result.2 != nil || result.1 < len(tokens)
 
-//@ func parse_expression [C08]
+//@ func parse_expression [C08 C15]
 //@   noframe
+//@   sigreads [C15]
+//@   requires sig: !ign(tokens[token_index].TokenType) [C15]
 //@   requires tokWf(tokens) && 0 <= token_index && token_index < len(tokens)
 //@   ensures nohole: result.2 == nil ==> wfbox(result.0)
 //@   ensures index: result.2 == nil ==> okIdx(tokens, token_index, result.1)
 //@   ensures either: result.2 != nil || result.1 < len(tokens)
 
-//@ func parse_at [C08]
+//@ func parse_at [C08 C15]
 //@   noframe
+//@   sigreads [C15]
+//@   requires sig: !ign(tokens[token_index].TokenType) [C15]
 //@   requires tokWf(tokens) && 0 <= token_index && token_index < len(tokens) && tokens[token_index].TokenType != EOF
 //@   ensures nohole: result.2 == nil ==> result.0 != nil
 //@   ensures index: result.2 == nil ==> okIdx(tokens, token_index, result.1)
 //@   ensures either: result.2 != nil || result.1 < len(tokens)
 
-//@ func parse_between [C08]
+//@ func parse_between [C08 C15]
 //@   noframe
+//@   sigreads [C15]
+//@   requires sig: !ign(tokens[token_index].TokenType) [C15]
 //@   requires tokWf(tokens) && 0 <= token_index && token_index < len(tokens) && tokens[token_index].TokenType != EOF
 //@   ensures nohole: result.2 == nil ==> result.0 != nil
 //@   ensures index: result.2 == nil ==> okIdx(tokens, token_index, result.1)
 //@   ensures either: result.2 != nil || result.1 < len(tokens)
 
-//@ func parse_exactly [C08]
+//@ func parse_exactly [C08 C15]
 //@   noframe
+//@   sigreads [C15]
+//@   requires sig: !ign(tokens[token_index].TokenType) [C15]
 //@   requires tokWf(tokens) && 0 <= token_index && token_index < len(tokens) && tokens[token_index].TokenType != EOF
 //@   ensures nohole: result.2 == nil ==> result.0 != nil
 //@   ensures index: result.2 == nil ==> okIdx(tokens, token_index, result.1)
 //@   ensures either: result.2 != nil || result.1 < len(tokens)
 
-//@ func parse_maybe [C08]
+//@ func parse_maybe [C08 C15]
 //@   noframe
+//@   sigreads [C15]
+//@   requires sig: !ign(tokens[token_index].TokenType) [C15]
 //@   requires tokWf(tokens) && 0 <= token_index && token_index < len(tokens) && tokens[token_index].TokenType != EOF
 //@   ensures nohole: result.2 == nil ==> result.0 != nil
 //@   ensures index: result.2 == nil ==> okIdx(tokens, token_index, result.1)
 //@   ensures either: result.2 != nil || result.1 < len(tokens)
 
-//@ func parse_not_expression [C08]
+//@ func parse_not_expression [C08 C15]
 //@   noframe
+//@   sigreads [C15]
+//@   requires sig: !ign(tokens[token_index].TokenType) [C15]
 //@   requires tokWf(tokens) && 0 <= token_index && token_index < len(tokens) && tokens[token_index].TokenType != EOF
 //@   ensures nohole: result.2 == nil ==> wfbox(result.0)
 //@   ensures index: result.2 == nil ==> okIdx(tokens, token_index, result.1)
 //@   ensures either: result.2 != nil || result.1 < len(tokens)
 
-//@ func parse_not_literal [C08]
+//@ func parse_not_literal [C08 C15]
 //@   noframe
+//@   sigreads [C15]
+//@   requires sig: !ign(tokens[token_index].TokenType) [C15]
 //@   requires tokWf(tokens) && 0 <= token_index && token_index < len(tokens) && tokens[token_index].TokenType != EOF
 //@   ensures nohole: result.2 == nil ==> wfbox(result.0)
 //@   ensures index: result.2 == nil ==> okIdx(tokens, token_index, result.1)
 //@   ensures either: result.2 != nil || result.1 < len(tokens)
 
-//@ func parse_in [C08]
+//@ func parse_in [C08 C15]
 //@   noframe
+//@   sigreads [C15]
+//@   requires sig: !ign(tokens[token_index].TokenType) [C15]
 //@   requires tokWf(tokens) && 0 <= token_index && token_index < len(tokens) && tokens[token_index].TokenType != EOF
 //@   ensures nohole: result.2 == nil ==> result.0 != nil
 //@   ensures index: result.2 == nil ==> okIdx(tokens, token_index, result.1)
 //@   ensures either: result.2 != nil || result.1 < len(tokens)
 //@   loop 1 invariant 0 <= current_index && current_index < len(tokens) && current_token == tokens[current_index] && token_index < current_index
 
-//@ func parse_listable [C08]
+//@ func parse_listable [C08 C15]
 //@   noframe
+//@   sigreads [C15]
+//@   requires sig: !ign(tokens[token_index].TokenType) [C15]
 //@   requires tokWf(tokens) && 0 <= token_index && token_index < len(tokens)
 //@   ensures nohole: result.2 == nil ==> wfbox(result.0)
 //@   ensures index: result.2 == nil ==> okIdx(tokens, token_index, result.1)
 //@   ensures either: result.2 != nil || result.1 < len(tokens)
 
-//@ func parse_literal [C08]
+//@ func parse_literal [C08 C15]
 //@   noframe
+//@   sigreads [C15]
+//@   requires sig: !ign(tokens[token_index].TokenType) [C15]
 //@   requires tokWf(tokens) && 0 <= token_index && token_index < len(tokens)
 //@   ensures nohole: result.2 == nil ==> wfbox(result.0)
 //@   ensures index: result.2 == nil ==> okIdx(tokens, token_index, result.1)
 //@   ensures either: result.2 != nil || result.1 < len(tokens)
 
-//@ func parse_primary_or_dec [C08]
+//@ func parse_primary_or_dec [C08 C15]
 //@   noframe
+//@   sigreads [C15]
+//@   requires sig: !ign(tokens[token_index].TokenType) [C15]
 //@   requires tokWf(tokens) && 0 <= token_index && token_index < len(tokens)
 //@   ensures nohole: result.2 == nil ==> wfbox(result.0)
 //@   ensures index: result.2 == nil ==> okIdx(tokens, token_index, result.1)
 //@   ensures either: result.2 != nil || result.1 < len(tokens)
 
-//@ func parse_primary_or_or [C08]
+//@ func parse_primary_or_or [C08 C15]
 //@   noframe
+//@   sigreads [C15]
+//@   requires sig: !ign(tokens[token_index].TokenType) [C15]
 //@   requires tokWf(tokens) && 0 <= token_index && token_index < len(tokens)
 //@   ensures nohole: result.2 == nil ==> wfbox(result.0)
 //@   ensures index: result.2 == nil ==> okIdx(tokens, token_index, result.1)
 //@   ensures either: result.2 != nil || result.1 < len(tokens)
 
-//@ func parse_atom [C08]
+//@ func parse_atom [C08 C15]
 //@   noframe
+//@   sigreads [C15]
+//@   requires sig: !ign(tokens[token_index].TokenType) [C15]
 //@   requires tokWf(tokens) && 0 <= token_index && token_index < len(tokens)
 //@   ensures nohole: result.2 == nil ==> wfbox(result.0)
 //@   ensures index: result.2 == nil ==> okIdx(tokens, token_index, result.1)
 //@   ensures either: result.2 != nil || result.1 < len(tokens)
 
-//@ func parse_caseless [C08]
+//@ func parse_caseless [C08 C15]
 //@   noframe
+//@   sigreads [C15]
+//@   requires sig: !ign(tokens[token_index].TokenType) [C15]
 //@   requires tokWf(tokens) && 0 <= token_index && token_index < len(tokens) && tokens[token_index].TokenType != EOF
 //@   ensures nohole: result.2 == nil ==> result.0 != nil
 //@   ensures index: result.2 == nil ==> okIdx(tokens, token_index, result.1)
 //@   ensures either: result.2 != nil || result.1 < len(tokens)
 
-//@ func parse_string [C08]
+//@ func parse_string [C08 C15]
 //@   noframe
+//@   sigreads [C15]
+//@   requires sig: !ign(tokens[token_index].TokenType) [C15]
 //@   requires tokWf(tokens) && 0 <= token_index && token_index < len(tokens)
 //@   ensures nohole: result.2 == nil ==> result.0 != nil
 //@   ensures index: result.2 == nil ==> okIdx(tokens, token_index, result.1)
 //@   ensures either: result.2 != nil || result.1 < len(tokens)
 
-//@ func parse_variable [C08]
+//@ func parse_variable [C08 C15]
 //@   noframe
+//@   sigreads [C15]
+//@   requires sig: !ign(tokens[token_index].TokenType) [C15]
 //@   requires tokWf(tokens) && 0 <= token_index && token_index < len(tokens)
 //@   ensures nohole: result.2 == nil ==> result.0 != nil
 //@   ensures index: result.2 == nil ==> okIdx(tokens, token_index, result.1)
 //@   ensures either: result.2 != nil || result.1 < len(tokens)
 
-//@ func parse_sub_expression [C08]
+//@ func parse_sub_expression [C08 C15]
 //@   noframe
+//@   sigreads [C15]
+//@   requires sig: !ign(tokens[token_index].TokenType) [C15]
 //@   requires tokWf(tokens) && 0 <= token_index && token_index < len(tokens) && tokens[token_index].TokenType != EOF
 //@   ensures nohole: result.2 == nil ==> result.0 != nil
 //@   ensures index: result.2 == nil ==> okIdx(tokens, token_index, result.1)
 //@   ensures either: result.2 != nil || result.1 < len(tokens)
 //@   loop 1 invariant 0 <= current_index && current_index < len(tokens) && current_token == tokens[current_index] && token_index < current_index
 
-//@ func parse_subroutine [C08]
+//@ func parse_subroutine [C08 C15]
 //@   noframe
+//@   sigreads [C15]
+//@   requires sig: !ign(tokens[token_index].TokenType) [C15]
 //@   requires tokWf(tokens) && 0 <= token_index && token_index < len(tokens) && tokens[token_index].TokenType != EOF
 //@   ensures nohole: result.2 == nil ==> result.0 != nil
 //@   ensures index: result.2 == nil ==> okIdx(tokens, token_index, result.1)
 //@   ensures either: result.2 != nil || result.1 < len(tokens)
 //@   loop 1 invariant 0 <= current_index && current_index < len(tokens) && current_token == tokens[current_index] && token_index < current_index
 
-//@ func parse_character_class [C08]
+//@ func parse_character_class [C08 C15]
 //@   noframe
+//@   sigreads [C15]
+//@   requires sig: !ign(tokens[token_index].TokenType) [C15]
 //@   requires tokWf(tokens) && 0 <= token_index && token_index < len(tokens)
 //@   ensures nohole: result.2 == nil ==> result.0 != nil
 //@   ensures index: result.2 == nil ==> okIdx(tokens, token_index, result.1)
 //@   ensures either: result.2 != nil || result.1 < len(tokens)
 
-//@ func parse_process_set [C08]
+//@ func parse_process_set [C08 C15]
 //@   noframe
+//@   sigreads [C15]
+//@   requires sig: !ign(tokens[index].TokenType) [C15]
 //@   requires tokWf(tokens) && 0 <= index && index < len(tokens) && tokens[index].TokenType != EOF
 //@   ensures nohole: result.2 == nil ==> wfbox(result.0)
 //@   ensures index: result.2 == nil ==> okIdx(tokens, index, result.1)
 //@   ensures either: result.2 != nil || result.1 < len(tokens)
 
-//@ func parse_process_if [C08]
+//@ func parse_process_if [C08 C15]
 //@   noframe
+//@   sigreads [C15]
+//@   requires sig: !ign(tokens[index].TokenType) [C15]
 //@   requires tokWf(tokens) && 0 <= index && index < len(tokens) && tokens[index].TokenType != EOF
 //@   ensures nohole: result.2 == nil ==> wfbox(result.0)
 //@   ensures index: result.2 == nil ==> okIdx(tokens, index, result.1)
 //@   ensures either: result.2 != nil || result.1 < len(tokens)
 
-//@ func parse_process_return [C08]
+//@ func parse_process_return [C08 C15]
 //@   noframe
+//@   sigreads [C15]
+//@   requires sig: !ign(tokens[index].TokenType) [C15]
 //@   requires tokWf(tokens) && 0 <= index && index < len(tokens) && tokens[index].TokenType != EOF
 //@   ensures nohole: result.2 == nil ==> wfbox(result.0)
 //@   ensures index: result.2 == nil ==> okIdx(tokens, index, result.1)
 //@   ensures either: result.2 != nil || result.1 < len(tokens)
 
-//@ func parse_process_debug [C08]
+//@ func parse_process_debug [C08 C15]
 //@   noframe
+//@   sigreads [C15]
+//@   requires sig: !ign(tokens[index].TokenType) [C15]
 //@   requires tokWf(tokens) && 0 <= index && index < len(tokens) && tokens[index].TokenType != EOF
 //@   ensures nohole: result.2 == nil ==> wfbox(result.0)
 //@   ensures index: result.2 == nil ==> okIdx(tokens, index, result.1)
 //@   ensures either: result.2 != nil || result.1 < len(tokens)
 
-//@ func parse_process_loop [C08]
+//@ func parse_process_loop [C08 C15]
 //@   noframe
+//@   sigreads [C15]
+//@   requires sig: !ign(tokens[index].TokenType) [C15]
 //@   requires tokWf(tokens) && 0 <= index && index < len(tokens) && tokens[index].TokenType != EOF
 //@   ensures nohole: result.2 == nil ==> wfbox(result.0)
 //@   ensures index: result.2 == nil ==> okIdx(tokens, index, result.1)
 //@   ensures either: result.2 != nil || result.1 < len(tokens)
 
-//@ func parse_process_expression [C08]
+//@ func parse_process_expression [C08 C15]
 //@   noframe
+//@   sigreads [C15]
+//@   requires sig: !ign(tokens[index].TokenType) [C15]
 //@   requires tokWf(tokens) && 0 <= index && index < len(tokens)
 //@   ensures nohole: result.2 == nil ==> wfbox(result.0)
 //@   ensures index: result.2 == nil ==> okIdx(tokens, index, result.1)
 //@   ensures either: result.2 != nil || result.1 < len(tokens)
 
-//@ func parse_amount [C08 C04]
+//@ func parse_amount [C08 C04 C15]
 //@   noframe
+//@   sigreads [C15]
 //@   requires tokWf(tokens) && 0 <= token_index && token_index < len(tokens)
 //@   ensures index: result.5 == nil ==> token_index <= result.4 && result.4 < len(tokens) && okIdx(tokens, token_index, result.4)
 // the amount clause, from the property statement C04: all | skip s | skip s take t | take n | top n | last n
@@ -281,14 +346,17 @@ package ast
 //@   ensures last: ta == LAST && nb ==> result.5 == nil && result.0 && result.1 == 0 && result.2 == 0 && result.3 == vb && result.4 == b + 1 [C04]
 //@   ensures other: !(ta == ALL || ta == SKIP || ta == TAKE || ta == TOP || ta == LAST) ==> result.5 != nil [C04]
 
-//@ func parse_process_statements [C08]
+//@ func parse_process_statements [C08 C15]
 //@   noframe
+//@   sigreads [C15]
 //@   requires tokWf(tokens) && 0 <= index && index < len(tokens)
 //@   ensures index: result.2 == nil ==> index <= result.1 && result.1 < len(tokens)
 //@   loop 1 invariant index <= token_index && token_index < len(tokens)
 
-//@ func parse_process_statement [C08]
+//@ func parse_process_statement [C08 C15]
 //@   noframe
+//@   sigreads [C15]
+//@   requires sig: !ign(tokens[index].TokenType) [C15]
 //@   requires tokWf(tokens) && 0 <= index && index < len(tokens)
 //@   ensures nohole: result.2 == nil && result.0 != nil ==> wfbox(result.0) && okIdx(tokens, index, result.1)
 //@   ensures stop: result.2 == nil && result.0 == nil ==> result.1 == index && (tokens[index].TokenType == END || tokens[index].TokenType == ELSE)
@@ -299,19 +367,24 @@ package ast
 //@   ensures index: index <= result.1 && result.1 < len(tokens)
 //@   ensures nonnil: forall k :: { result.0[k] } 0 <= k && k < len(result.0) ==> result.0[k] != nil
 //@   ensures nonempty: len(result.0) > 0 ==> result.1 > index
+//@   ensures filtered: forall k :: { result.0[k] } 0 <= k && k < len(result.0) ==> !ign(result.0[k].TokenType) [C15]
 //@   loop 1 invariant index <= token_index && token_index < len(tokens) && tokWf(tokens) && fresh(exprTokens) && (len(exprTokens) > 0 ==> token_index > index)
 //@   loop 1 invariant forall k :: { exprTokens[k] } 0 <= k && k < len(exprTokens) ==> exprTokens[k] != nil
+//@   loop 1 invariant filtered: forall k :: { exprTokens[k] } 0 <= k && k < len(exprTokens) ==> !ign(exprTokens[k].TokenType) [C15]
 //@   loop 1 decreases len(tokens) - token_index
 
-//@ func parse_expr_pratt [C08 C11]
+//@ func parse_expr_pratt [C08 C11 C15]
 //@   noframe
+//@   sigreads [C15]
+//@   requires sig: forall k :: { tokens[k] } 0 <= k && k < len(tokens) ==> !ign(tokens[k].TokenType) [C15]
 //@   requires (forall k :: { tokens[k] } 0 <= k && k < len(tokens) ==> tokens[k] != nil) && len(tokens) >= 1 && 0 <= index && index <= len(tokens)
 //@   ensures nohole: result.2 == nil ==> wfbox(result.0)
 //@   ensures index: result.2 == nil ==> index < result.1 && result.1 <= len(tokens)
 //@   loop 1 invariant index < token_index && token_index <= len(tokens) && wfbox(lhs)
 
-//@ func parse [C08]
+//@ func parse [C08 C15]
 //@   noframe
+//@   sigreads [C15]
 //@   requires tokWf(tokens)
 //@   ensures nohole: result.1 == nil ==> forall k :: { result.0[k] } 0 <= k && k < len(result.0) ==> wfbox(result.0[k])
 //@   loop 1 invariant 0 <= token_index && token_index < len(tokens)
